@@ -9,9 +9,22 @@ from . import tz as z3
 from .sv import SBytes, SInt, mk_bool, mk_bytes, atoms_of, Unsupported
 
 
+def neq8(x, y):
+    if isinstance(x, int) and isinstance(y, int):
+        return z3.BoolVal(x != y)
+    bx = x if z3.is_expr(x) and x.sort == z3.BV else None
+    by = y if z3.is_expr(y) and y.sort == z3.BV else None
+    if bx is not None or by is not None:
+        bx = bx if bx is not None else (z3.BitVecVal(x, 8) if isinstance(x, int) else z3.Int2BV(x, 8))
+        by = by if by is not None else (z3.BitVecVal(y, 8) if isinstance(y, int) else z3.Int2BV(y, 8))
+        return z3.Not(z3.bveq(bx, by))
+    return z3._t(x) != z3._t(y)
+
+
 class IdealFn:
-    def __init__(self, vm, name, out_len, injective=True, arity=1):
+    def __init__(self, vm, name, out_len, injective=True, arity=1, bv=True):
         self.vm, self.name, self.out_len, self.injective, self.arity = vm, name, out_len, injective, arity
+        self.bv = bv        # output bytes as 8-bit bit-vector variables (equalities stay in the SAT core)
         self.calls = 0
 
     def table(self):
@@ -29,10 +42,17 @@ class IdealFn:
             if same:
                 return out
         n = len(tab)
-        out = SBytes([vm._fresh_int(f'{self.name}#{n}[{i}]', 0, 255).e for i in range(self.out_len)])
+        if self.bv:
+            out = SBytes([vm._fresh_bv8(f'{self.name}#{n}[{i}]') for i in range(self.out_len)])
+        else:
+            out = SBytes([vm._fresh_int(f'{self.name}#{n}[{i}]', 0, 255).e for i in range(self.out_len)])
         if self.injective:
-            for prev_args, prev in tab:
-                vm.add_pc(z3.Or([x != y for x, y in zip(prev.a, out.a)]))
+            # random-oracle freshness: the output for a new argument differs from every value of its length that
+            # exists at this point of the path (harness-created byte strings and earlier outputs of any ideal function)
+            for other in vm.universe:
+                if len(other.a) == self.out_len:
+                    vm.add_pc(z3.Or([neq8(x, y) for x, y in zip(other.a, out.a)]))
+            vm.universe.append(out)
         tab.append((args, out))
         return out
 
